@@ -54,23 +54,39 @@ func (w *World) readsBidList(fn *ssa.Function) bool {
 	return false
 }
 
-// mapUpdatesOf: the (key,value) terms of every MapUpdate on the local map mm in its function.
+// mapUpdatesOf: the (key,value) terms of every MapUpdate on the map mm made (or held) in frame fr — in fr's function and
+// in every function it hands the map to (the map operand, resolved through the call frames, is the same map).
+type mapUpd struct{ keys, vals []*Term }
+
+var mapUpdCache = map[*Terms]map[string]*mapUpd{}
+
 func mapUpdatesOf(tm *Terms, fr *Frame, mm ssa.Value) (keys, vals []*Term) {
-	fn := fr.Fn
 	want := tm.Of(fr, mm).Key()
-	for _, b := range fn.Blocks {
-		for _, in := range b.Instrs {
-			mu, ok := in.(*ssa.MapUpdate)
-			if !ok {
-				continue
-			}
-			// the same SSA value, or a field / variable that holds exactly this map
-			if mapRoot(mu.Map) == mapRoot(mm) || tm.Of(fr, mu.Map).Key() == want {
-				keys = append(keys, tm.Of(fr, mu.Key))
-				vals = append(vals, tm.OperandAt(fr, in, mu.Value))
-			}
+	ck := fr.id + "|" + want
+	if c := mapUpdCache[tm]; c != nil {
+		if u := c[ck]; u != nil {
+			return u.keys, u.vals
 		}
+	} else {
+		mapUpdCache[tm] = map[string]*mapUpd{}
 	}
+	defer func() { mapUpdCache[tm][ck] = &mapUpd{keys, vals} }()
+	// the map may have been made by a sibling helper of the function that uses it: look from the outermost caller
+	top := fr
+	for top.Parent != nil {
+		top = top.Parent
+	}
+	tm.walkFrom(top, func(cfr *Frame, in ssa.Instruction) {
+		mu, ok := in.(*ssa.MapUpdate)
+		if !ok {
+			return
+		}
+		// the same SSA value, or a field / variable / parameter that holds exactly this map
+		if (cfr == fr && mapRoot(mu.Map) == mapRoot(mm)) || tm.Of(cfr, mu.Map).Key() == want {
+			keys = append(keys, tm.Of(cfr, mu.Key))
+			vals = append(vals, tm.OperandAt(cfr, in, mu.Value))
+		}
+	})
 	return
 }
 
